@@ -924,27 +924,31 @@ def _run_tcp_recv(case, res, log):
 
 
 def expect_tcp_send(case, total):
-    """Simulate the acceptance pattern: returns ('ok',) or ('exc','Timeout'), bytes delivered."""
-    # same absolute-time float arithmetic as the simulated clock (start 9000.0), so that a
-    # gap sequence ending exactly on the deadline is classified identically
+    """Simulate the acceptance pattern: returns (('ok',) | ('exc','Timeout') | ('either',)), bytes
+    delivered.  A blocked write that becomes possible within the event loop's clock resolution of
+    the deadline may legitimately go either way."""
+    # same absolute-time float arithmetic as the simulated clock (start 9000.0)
     t = 9000.0
     T = t + case["timeout"]
     sent = 0
     i = 0
     acc = case["tx_accept"]
+    near = False
     while sent < total:
         if i < len(acc):
             k = acc[i]
             i += 1
             if k == 0:
                 t = t + case["tx_gap"]
+                if abs(t - T) < 1e-6:
+                    near = True
                 if t >= T:
-                    return ("exc", "Timeout"), sent
+                    return (("either",) if near else ("exc", "Timeout")), sent
                 continue
             sent += min(k, total - sent)
         else:
             sent = total
-    return ("ok",), sent
+    return (("either",) if near else ("ok",)), sent
 
 
 def _run_tcp_send(case, res, log):
@@ -984,7 +988,12 @@ def _run_tcp_send(case, res, log):
             r, exc = netsim.run_async(go, net)
             got = ("ok", r[0]) if exc is None else ("exc", type(exc).__name__)
         recv = bytes(script.received)
-        if want[0] == "ok":
+        if want[0] == "either":
+            if got not in (("ok", len(expected_bytes)), ("exc", "Timeout")):
+                raise Violation("C18:tcp-send", f"[{world}] send_tcp -> {got}")
+            if got[0] == "ok" and recv != expected_bytes:
+                raise Violation("C18:tcp-send-bytes", f"[{world}] peer received bytes that differ from the framed message")
+        elif want[0] == "ok":
             if got != ("ok", len(expected_bytes)):
                 raise Violation("C18:tcp-send", f"[{world}] send_tcp -> {got}, expected ('ok', {len(expected_bytes)}); accept pattern {case['tx_accept'][:10]}")
             if recv != expected_bytes:
